@@ -13,7 +13,13 @@ import CloakModel.Lemmas.Ssv
   **Fails on the pinned tree** (`remote.KeepAlive = remote.KeepAlive * time.Second`), see `pinned_keepalive`.
 * `c20_reject` — each missing mandatory field, a public key that is not 32 bytes, an unknown method ⇒ error.
   (`processRaw` is total and has no panic outcome.)
-* `c20_ssv_partial` — the option-string front end `ssvToJson` on the escaping alphabet plugin hosts use. -/
+* `c20_ssv_partial` — the option-string front end `ssvToJson` on the escaping alphabet plugin hosts use;
+  `c20_ssv_full` (values may contain `;`, escaped `\;`) is **false**: `c20_ssv_witness` (open finding).
+* `c20_load_total` — the parse step: every JSON document (`null`, non-objects, `{}`) ends in an error or a
+  configuration, never in a nil configuration (**fails on the tree that unmarshals into `&raw`**: `pinned_null_crashes`).
+* `c20_no_crash_full` / `_partial` / `_witness` — first connection with an accepted configuration: a small-order
+  `PublicKey` is accepted and panics (open finding).
+* `c20_random_full` / `_partial` / `_witness` — `ServerName = random` is randomised by the direct transport only (open finding). -/
 set_option linter.unusedSimpArgs false
 set_option linter.unusedVariables false
 
@@ -325,6 +331,40 @@ theorem methods_exact (s : String) :
   by_cases h1 : s = "plain" <;> by_cases h2 : s = "aes-gcm" <;> by_cases h3 : s = "aes-256-gcm" <;>
     by_cases h4 : s = "aes-128-gcm" <;> by_cases h5 : s = "chacha20-poly1305" <;> simp_all
 
+/-! ### the parse step: every JSON document ends in a configuration or an error -/
+
+/-- `ParseConfig` either decodes into the allocated struct or tests the pointer afterwards (**fails on the tree where
+`json.Unmarshal(content, &raw)` lets the document `null` produce `(nil, nil)`**) -/
+theorem gen_parse : Gen.ClientCfg.parseNullOutcome = "empty-config" ∨ Gen.ClientCfg.parseNullOutcome = "error" := by decide
+
+/-- `cmd/ck-client` uses the result of `ParseConfig` without a nil test: a nil configuration with a nil error is a crash -/
+theorem gen_main_derefs : Gen.ClientCfg.mainUsesConfigWithoutNilTest = true := by decide
+
+/-- **C20 (rejection, whole front end).** Whatever the top-level JSON value of the configuration text is, loading it
+ends in a parse error, a configuration error or a processed configuration — never in the dereference of a nil
+configuration.  In particular the documents `null` and `{}` and every non-object are *rejected with an error*. -/
+theorem c20_load_total (lower : String → String) (d : Doc) :
+    loadDoc lower d ≠ .nilDereference ∧
+    (loadDoc lower .null = .configError (.empty "ServerName") ∨ loadDoc lower .null = .parseError) ∧
+    loadDoc lower (.object emptyRaw) = .configError (.empty "ServerName") ∧
+    loadDoc lower .other = .parseError := by
+  have hn : loadDoc lower .null = .configError (.empty "ServerName") ∨ loadDoc lower .null = .parseError := by
+    rcases gen_parse with h | h
+    · left; simp [loadDoc, loadDocWith, parseDoc, h, processRaw, processRawK, emptyRaw]
+    · right; simp [loadDoc, loadDocWith, parseDoc, h]
+  refine ⟨?_, hn, ?_, ?_⟩
+  · cases d with
+    | null => rcases hn with h | h <;> simp [h]
+    | object raw => simp only [loadDoc, loadDocWith, parseDoc]; split <;> simp
+    | other => simp [loadDoc, loadDocWith, parseDoc]
+  · simp [loadDoc, loadDocWith, parseDoc, processRaw, processRawK, emptyRaw]
+  · simp [loadDoc, loadDocWith, parseDoc]
+
+/-- the pinned `json.Unmarshal(content, &raw)`: the document `null` is not rejected, it kills the client
+(the harness replays it: signature `C20 invalid-config-accepted null-document`) -/
+theorem pinned_null_crashes (lower : String → String) : loadDocWith "nil-config" lower .null = .nilDereference := by
+  simp [loadDocWith, parseDoc]
+
 /-! ## 5. The pinned tree: `KeepAlive = 5` is ignored (explicit pinned right-hand side) -/
 
 /-- the right-hand side the pinned tree assigns: `remote.KeepAlive * time.Second` -/
@@ -528,8 +568,9 @@ theorem dropLast_members (l : List Str) (h : l ≠ []) :
 `=`, `;`, `\\` and whose values contain no `;`, `\\` (values may contain `=`, which plugin hosts escape as `\\=`,
 as in base64 UIDs and keys), converting the option string yields exactly the JSON object text with the same
 members in the same order: numbers/booleans unquoted, `AlternativeNames` as an array split at commas,
-everything else a string.  Outside this alphabet (`\;`, `"`, raw `\\`) the correspondence with JSON depends on
-`encoding/json` and is exercised by T2 only. -/
+everything else a string.  Outside this alphabet: an escaped semicolon `\;` inside a value does NOT work
+(`c20_ssv_witness` below: the full statement `c20_ssv_full` is false — open finding); `"` and raw `\\` in values
+make the correspondence depend on `encoding/json` string escaping and are exercised by T2 only. -/
 theorem c20_ssv_partial (opts : List Opt) (hne : opts ≠ []) (h : ∀ o ∈ opts, o.Plain) :
     ssvToJson (renderSsv opts) = renderJson opts := by
   unfold ssvToJson renderJson
@@ -556,6 +597,178 @@ example :
   simp only [List.mem_cons, List.mem_nil_iff, or_false] at ho
   rcases ho with rfl | rfl | rfl <;> (unfold Opt.Plain; decide)
 
+/-! ### the full escaping alphabet: `\;` is in `unescape`'s table, but the string is split *after* unescaping -/
+
+/-- the escaping of the plugin-option syntax (SIP003, the format Shadowsocks plugin hosts hand over):
+`\` → `\\`, `=` → `\=`, `;` → `\;` — the three pairs of `Gen.ClientCfg.ssvUnescape`, read backwards -/
+def escAll (v : Str) : Str := v.flatMap fun c =>
+  if c = '\\' then ['\\', '\\'] else if c = '=' then ['\\', '='] else if c = ';' then ['\\', ';'] else [c]
+
+def renderSsvEsc (opts : List Opt) : Str := opts.flatMap fun o => o.key ++ '=' :: escAll o.value ++ [';']
+
+/-- keys as before; values free of `"` and `\` (JSON string escaping is not the subject) but they MAY contain `;` and `=` -/
+def Opt.Semi (o : Opt) : Prop :=
+  '=' ∉ o.key ∧ ';' ∉ o.key ∧ '\\' ∉ o.key ∧ '"' ∉ o.value ∧ '\\' ∉ o.value
+
+/-- **C20 (syntax equivalence), full statement**: also for values that contain a semicolon -/
+def c20_ssv_full : Prop :=
+  ∀ opts : List Opt, opts ≠ [] → (∀ o ∈ opts, o.Semi) → ssvToJson (renderSsvEsc opts) = renderJson opts
+
+theorem escAll_plain (v : Str) (h1 : ';' ∉ v) (h2 : '\\' ∉ v) : escAll v = escEqs v := by
+  induction v with
+  | nil => rfl
+  | cons c r ih =>
+    simp only [List.mem_cons, not_or] at h1 h2
+    have e1 : ¬ c = '\\' := fun e => h2.1 e.symm
+    have e2 : ¬ c = ';' := fun e => h1.1 e.symm
+    simp only [escAll, escEqs, List.flatMap_cons] at ih ⊢
+    rw [ih h1.2 h2.2]
+    simp [e1, e2]
+
+theorem renderSsvEsc_plain (opts : List Opt) (h : ∀ o ∈ opts, o.Plain) : renderSsvEsc opts = renderSsv opts := by
+  induction opts with
+  | nil => rfl
+  | cons o r ih =>
+    obtain ⟨_, _, _, hv1, hv2⟩ := h o (by simp)
+    simp only [renderSsvEsc, renderSsv, List.flatMap_cons] at ih ⊢
+    rw [ih (fun x hx => h x (List.mem_cons_of_mem _ hx)), escAll_plain _ hv1 hv2]
+
+/-- what is proved of it: the part without `;` in values (this is `c20_ssv_partial` for the full escaping) -/
+theorem c20_ssv_full_partial (opts : List Opt) (hne : opts ≠ []) (h : ∀ o ∈ opts, o.Plain) :
+    ssvToJson (renderSsvEsc opts) = renderJson opts := by
+  rw [renderSsvEsc_plain opts h]; exact c20_ssv_partial opts hne h
+
+def semiOpt : Opt := ⟨"CDNWsUrlPath".toList, "/ws;v=1".toList⟩
+
+/-- the option string `CDNWsUrlPath=/ws\;v\=1;` becomes `{"CDNWsUrlPath":"/ws","v":"1"}`: the escaped semicolon still
+splits, the path is cut and a bogus option `v` appears; the JSON syntax keeps `"/ws;v=1"` -/
+theorem ssv_semicolon_splits :
+    String.ofList (renderSsvEsc [semiOpt]) = "CDNWsUrlPath=/ws\\;v\\=1;" ∧
+    String.ofList (ssvToJson (renderSsvEsc [semiOpt])) = "{\"CDNWsUrlPath\":\"/ws\",\"v\":\"1\"}" ∧
+    String.ofList (renderJson [semiOpt]) = "{\"CDNWsUrlPath\":\"/ws;v=1\"}" := by
+  decide
+
+/-- **the full equivalence statement is false of `ssvToJson`** (genuine defect, open finding; the harness replays this
+configuration: signature `C20 syntaxes-differ escaped-semicolon-in-value`) -/
+theorem c20_ssv_witness : ¬ c20_ssv_full := by
+  intro h
+  have h1 := h [semiOpt] (by simp) (by
+    intro o ho
+    simp only [List.mem_cons, List.mem_nil_iff, or_false] at ho
+    subst ho; unfold Opt.Semi semiOpt; decide)
+  have h2 := congrArg String.ofList h1
+  rw [ssv_semicolon_splits.2.1, ssv_semicolon_splits.2.2] at h2
+  revert h2; decide
+
+/-- mirrored by the model, compared in the T rows, *not* asserted by any monitor (the text gives them no meaning):
+an empty item ends the loop, so every later option is dropped; only the exact spellings of the four numeric/boolean
+keys are left unquoted -/
+theorem ssv_mirrored_oddities :
+    String.ofList (ssvToJson "ProxyMethod=ss;;NumConn=4;".toList) = "{\"ProxyMethod\":\"ss\"}" ∧
+    String.ofList (ssvToJson "numconn=4;".toList) = "{\"numconn\":\"4\"}" := by
+  decide
+
+/-! ## 7. The first connection made with an accepted configuration -/
+
+theorem gen_connect : Gen.ClientCfg.authPayloadPanicsOnDHError = true ∧
+    Gen.ClientCfg.directRandomisesServerName = true ∧ Gen.ClientCfg.cdnRandomisesServerName = false := by decide
+
+/-- what an accepted configuration carries over unchanged -/
+theorem processRaw_ok_fields (lower : String → String) (raw : RawConfig) (c : Cfg) (h : processRaw lower raw = .ok c) :
+    c.serverPubKey = raw.publicKey ∧ c.mockDomain = raw.serverName ∧ c.transport = transportOf lower raw := by
+  unfold processRaw processRawK at h
+  by_cases h1 : raw.serverName = ""
+  · simp [h1] at h
+  by_cases h2 : raw.proxyMethod = ""
+  · simp [h1, h2] at h
+  by_cases h3 : raw.uid.length = 0
+  · simp [h1, h2, h3] at h
+  by_cases h4 : raw.publicKey.length = 0
+  · simp [h1, h2, h3, h4] at h
+  by_cases h5 : Gen.ClientCfg.pubKeyRejected (raw.publicKey.length : Nat) = true
+  · simp [h1, h2, h3, h4, h5] at h
+  simp only [h1, h2, h3, h4, h5, if_false] at h
+  cases hm : caseOf Gen.ClientCfg.methodCases (lower raw.encryptionMethod) with
+  | none => simp [hm] at h
+  | some enc =>
+    simp only [hm] at h
+    by_cases h6 : raw.remoteHost = ""
+    · simp [h6] at h
+    by_cases h7 : raw.remotePort = ""
+    · simp [h6, h7] at h
+    by_cases h8 : raw.localHost = ""
+    · simp [h6, h7, h8] at h
+    by_cases h9 : raw.localPort = ""
+    · simp [h6, h7, h8, h9] at h
+    simp only [h6, h7, h8, h9, if_false] at h
+    injection h with h
+    subst h
+    exact ⟨rfl, rfl, rfl⟩
+
+/-- **C20 ("rejected with an error rather than a crash"), full statement**: no accepted configuration makes the client
+panic when it connects -/
+def c20_no_crash_full : Prop :=
+  ∀ (lower : String → String) (raw : RawConfig) (dhFails : Bytes → Bool) (c : Cfg),
+    processRaw lower raw = .ok c → firstConnect dhFails c = .proceeds
+
+/-- what holds: a configuration whose `PublicKey` X25519 accepts never reaches the `log.Panicf` -/
+theorem c20_no_crash_partial (lower : String → String) (raw : RawConfig) (dhFails : Bytes → Bool) (c : Cfg)
+    (h : processRaw lower raw = .ok c) (hk : dhFails raw.publicKey = false) : firstConnect dhFails c = .proceeds := by
+  rw [firstConnect, (processRaw_ok_fields lower raw c h).1, hk]; simp
+
+def rawZeroKey : RawConfig := ⟨"bing.com", "ss", "plain", [1], List.replicate 32 0, 4, "127.0.0.1", "1984", "1.2.3.4", "443",
+  [], false, "", "", "", "", 0, 0⟩
+
+/-- `PublicKey` = 32 zero bytes (a small-order point: `curve25519.X25519` answers "bad input point: low order point",
+exercised on the real code by the harness) is accepted by `ProcessRawConfig` — only the length is tested — and the
+first connection panics.  Signature `C20 invalid-config-crashes low-order-public-key`. -/
+theorem c20_no_crash_witness : ¬ c20_no_crash_full := by
+  intro h
+  obtain ⟨mt, _⟩ := gen_tables
+  have hk : Gen.ClientCfg.pubKeyRejected 32 = false := by unfold Gen.ClientCfg.pubKeyRejected; decide
+  have hp : ∃ c, processRaw demoLower rawZeroKey = .ok c := by
+    simp [processRaw, processRawK, rawZeroKey, hk, mt, demoLower, caseOf, Spec.methods]
+  obtain ⟨c, hc⟩ := hp
+  have h1 := h demoLower rawZeroKey (fun pk => pk == List.replicate 32 0) c hc
+  rw [firstConnect, (processRaw_ok_fields _ _ _ hc).1, gen_connect.1] at h1
+  revert h1; decide
+
+/-! ## 8. `ServerName = random` -/
+
+/-- **README: "Use `random` to randomize the server name for every connection made", full statement** -/
+def c20_random_full : Prop :=
+  ∀ (lower : String → String) (raw : RawConfig) (c : Cfg) (fresh : String),
+    processRaw lower raw = .ok c → lower raw.serverName = "random" → sniOf lower c fresh = fresh
+
+/-- what holds: the direct transport sends the freshly drawn name -/
+theorem c20_random_partial (lower : String → String) (raw : RawConfig) (c : Cfg) (fresh : String)
+    (h : processRaw lower raw = .ok c) (hr : lower raw.serverName = "random") (hd : ∀ u, c.transport ≠ .cdn u) :
+    sniOf lower c fresh = fresh := by
+  obtain ⟨_, hm, _⟩ := processRaw_ok_fields lower raw c h
+  unfold sniOf
+  cases ht : c.transport with
+  | cdn u => exact absurd ht (hd u)
+  | direct b => simp [gen_connect.2.1, hm, hr]
+
+def rawRandomCdn : RawConfig := ⟨"random", "ss", "plain", [1], List.replicate 32 7, 4, "127.0.0.1", "1984", "1.2.3.4", "443",
+  [], false, "", "CDN", "", "", 0, 0⟩
+
+/-- with `Transport = CDN` the literal name `random` is the SNI of every connection (`WSOverTLS.Handshake` hands
+`authInfo.MockDomain` to utls unchanged).  Signature `C20 servername-random-not-randomised cdn`. -/
+theorem c20_random_witness : ¬ c20_random_full := by
+  intro h
+  obtain ⟨mt, tc, td, _⟩ := gen_tables
+  have hk : Gen.ClientCfg.pubKeyRejected 32 = false := by unfold Gen.ClientCfg.pubKeyRejected; decide
+  have hp : ∃ c, processRaw demoLower rawRandomCdn = .ok c := by
+    simp [processRaw, processRawK, rawRandomCdn, hk, mt, demoLower, caseOf, Spec.methods]
+  obtain ⟨c, hc⟩ := hp
+  have h1 := h demoLower rawRandomCdn c "fresh.example" hc (by simp [rawRandomCdn, demoLower])
+  obtain ⟨_, hm, ht⟩ := processRaw_ok_fields _ _ _ hc
+  have htr : ∃ u, c.transport = .cdn u := by
+    rw [ht]; simp [transportOf, tc, td, rawRandomCdn, demoLower, caseOf]
+  obtain ⟨u, hu⟩ := htr
+  simp [sniOf, hu, gen_connect.2.2, hm, rawRandomCdn] at h1
+
 end C20
 
 #print axioms C20.c20_doc
@@ -563,3 +776,7 @@ end C20
 #print axioms C20.pinned_doc_false
 #print axioms C20.c20_ssv_partial
 #print axioms C20.gen_structure
+#print axioms C20.c20_load_total
+#print axioms C20.c20_ssv_witness
+#print axioms C20.c20_no_crash_witness
+#print axioms C20.c20_random_witness
